@@ -44,6 +44,22 @@ def tok_state(tok):
     return dict(vars(tok))
 
 
+def global_state():
+    """process-wide state a call must not leave changed: every pandas option, numpy's error settings"""
+    st = {}
+    try:
+        from pandas._config import config as _pc
+        for k_ in sorted(_pc._registered_options):
+            try:
+                st['pd.' + k_] = repr(_pc.get_option(k_))
+            except Exception:  # noqa
+                pass
+    except Exception:  # noqa
+        pass
+    st['np.seterr'] = repr(sorted(np.geterr().items()))
+    return st
+
+
 # ---------------------------------------------------------------- call specs
 def gen_spec(rng, with_ed, names, cols_l, cols_r):
     kind = rng.choice(['join', 'join', 'filter_tables', 'filter_candset', 'apply_matcher', 'filter_pair'])
@@ -145,6 +161,8 @@ def clone_tok(tok):
 
 def run_histories(seed, n_hist, hist_len=6):
     import py_stringmatching as sm
+    import py_stringsimjoin  # noqa  (import-time settings, e.g. profiler/__init__ sets a display option, are not calls)
+    import py_stringsimjoin.profiler.profiler  # noqa
     rng = random.Random(seed + 17)
     problems = []
     calls = 0
@@ -162,16 +180,35 @@ def run_histories(seed, n_hist, hist_len=6):
         cands = {True: make_cand(L, R, names, True), False: make_cand(L, R, names, False)}
         cands0 = {k_: v_.copy(deep=True) for k_, v_ in cands.items()}
         user_actions = []
+        saved_key = [None]
         for k, spec in enumerate(specs):
             # between two API calls the USER may reconfigure the shared tokenizer or edit a shared
             # table in place; the next call must see exactly the objects' current state (no result
             # may come from state remembered by an earlier call).  The isolated run below gets fresh
             # copies of the same current state.
             if k > 0 and rng.random() < 0.3:
-                act = rng.choice(['toggle_return_set', 'edit_left_cell', 'edit_right_cell', 'change_tokenizer_param'])
+                act = rng.choice(['toggle_return_set', 'edit_left_cell', 'edit_right_cell', 'change_tokenizer_param',
+                                  'edit_left_cell', 'break_left_key', 'repair_left_key'])
                 if act == 'toggle_return_set':
                     tok.set_return_set(not tok.get_return_set())
                     tok0.set_return_set(tok.get_return_set())
+                elif act == 'break_left_key':
+                    # the user edits the key column in place: the table is no longer valid and the next
+                    # calls must say so (nothing remembered from earlier validations may vouch for it)
+                    if len(L) >= 2 and not L[names[0]].duplicated().any():
+                        saved_key[0] = L[names[0]].iloc[1]
+                        v = L[names[0]].iloc[0]
+                        L.iloc[1, L.columns.get_loc(names[0])] = v
+                        L0.iloc[1, L0.columns.get_loc(names[0])] = v
+                    else:
+                        act = 'none'
+                elif act == 'repair_left_key':
+                    if saved_key[0] is not None and len(L) >= 2 and L[names[0]].iloc[1] == L[names[0]].iloc[0]:
+                        L.iloc[1, L.columns.get_loc(names[0])] = saved_key[0]      # the key it had before
+                        L0.iloc[1, L0.columns.get_loc(names[0])] = saved_key[0]
+                        saved_key[0] = None
+                    else:
+                        act = 'none'
                 elif act == 'change_tokenizer_param':
                     if hasattr(tok, 'qval') and not with_ed:
                         q_new = 3 if tok.qval == 2 else 2
@@ -199,7 +236,19 @@ def run_histories(seed, n_hist, hist_len=6):
             sl, sr, st = snapshot(L), snapshot(R), tok_state(tok)
             cand = cands[spec.get('cand_with_id', True)]
             sc = snapshot(cand)
+            g0 = global_state()
             res = run_spec(spec, L, R, names, tok, cand)
+            g1 = global_state()
+            changed = sorted(k_ for k_ in g1 if k_ in g0 and g1[k_] != g0[k_])     # options registered lazily during the call are not changes
+            if changed:
+                problems.append({'history': h, 'step': k, 'spec': spec, 'tokenizer': kind, 'what': 'the call left process-wide state changed: %s' % ', '.join('%s %s -> %s' % (k_, g0.get(k_), g1.get(k_)) for k_ in changed[:4]), 'cls': 'global_state_changed'})
+                from pandas._config import config as _pc
+                for k_ in changed:
+                    if k_.startswith('pd.'):
+                        try:
+                            _pc.set_option(k_[3:], eval(g0[k_]))
+                        except Exception:  # noqa
+                            pass
             if not unchanged(cand, sc):
                 problems.append(dict({'history': h, 'step': k, 'spec': spec, 'tokenizer': kind,
                                       'candset_before': sc[0].to_dict(orient='split'),
@@ -212,9 +261,13 @@ def run_histories(seed, n_hist, hist_len=6):
             desc = {'history': h, 'step': k, 'spec': spec, 'tokenizer': kind, 'return_set_at_entry': rs0,
                     'names': list(names), 'ltable': L0.to_dict(orient='split'), 'rtable': R0.to_dict(orient='split'),
                     'previous_specs': specs[:k], 'user_actions_before': list(user_actions)}
-            if isinstance(res, Exception):
+            key_broken = len(L) >= 2 and L[names[0]].duplicated().any()
+            if isinstance(res, Exception) and not (key_broken and isinstance(res, AssertionError)):
                 problems.append(dict(desc, what='valid call raised %s: %s' % (type(res).__name__, res),
                                      cls='exception', tb=getattr(res, '_tb', '')[-800:]))
+            if key_broken and not isinstance(res, AssertionError) and spec['kind'] != 'filter_pair':
+                problems.append(dict(desc, what='a table whose key column now holds duplicates was accepted '
+                                                '(returned %s)' % type(res).__name__, cls='accepted_invalid_key'))
             if tok_state(tok) != st:
                 problems.append(dict(desc, what='tokenizer changed by the call: %r -> %r' % (st, tok_state(tok)),
                                      cls='tokenizer_changed'))
